@@ -4,6 +4,7 @@ import Driver.ConstructD
 import Driver.ViewsD
 import Driver.NumExprD
 import Driver.CostD
+import Driver.SpacingD
 /-
 One line in, one line out.  First word selects the model.
 Run: `lake env lean --run Driver/Main.lean < ops.txt`
@@ -24,6 +25,7 @@ def step (w : World) (line : String) : World × String :=
   | "C" :: rest => (w, constructStep rest)
   | "N" :: rest => let (s, out) := numStep w.num rest; ({ w with num := s }, out)
   | "Q" :: rest => let (s, out) := costStep w.cost rest; ({ w with cost := s }, out)
+  | "W" :: rest => (w, spacingStep rest)
   | "V" :: rest => let (v, out) := viewsStep w.views rest; ({ w with views := v }, out)
   | ["reset"] => ({}, "ok")
   | _ => (w, "!bad-op")
